@@ -322,3 +322,19 @@ func VerifCleanHolder(api *API) error {
 	cleaner := holderCleaner{Node: c.Node, Holder: c.holder, Cluster: c, Closing: c.closing}
 	return cleaner.CleanHolder()
 }
+
+// ---------------------------------------------------------------- translate store of a running node (C24 cluster leg)
+
+func VerifTranslateSize(api *API) int64 { return api.holder.translateFile.size() }
+func VerifTranslateCols(api *API, index string, keys []string) ([]uint64, error) {
+	return api.holder.translateFile.TranslateColumnsToUint64(index, keys)
+}
+func VerifTranslateRows(api *API, index, field string, keys []string) ([]uint64, error) {
+	return api.holder.translateFile.TranslateRowsToUint64(index, field, keys)
+}
+func VerifTranslateColKey(api *API, index string, id uint64) (string, error) {
+	return api.holder.translateFile.TranslateColumnToString(index, id)
+}
+func VerifTranslateRowKey(api *API, index, field string, id uint64) (string, error) {
+	return api.holder.translateFile.TranslateRowToString(index, field, id)
+}
